@@ -1795,6 +1795,11 @@ def _lincomb_impl(a, x1, b, x2, out):
 
     size = native(x1.size)
 
+    if out is x1 and out is x2 and (a + b) == 0:
+        # Zeroing in place must not depend on old values (e.g. NaN)
+        out.data[:] = 0
+        return
+
     if size < THRESHOLD_SMALL:
         # Faster for small arrays
         out.data[:] = a * x1.data + b * x2.data
